@@ -964,20 +964,27 @@ pub async fn start_replication_supervisor(
                 match command_str {
                     // Add secoundary to primary
                     Some("secoundary") => {
-                        if !dbs.has_cluster_memeber(&name) {
-                            // Notify the members in the cluster about the new member
-                            send_cluster_state_to_the_new_member(&sender, &dbs, &name);
-                            let guard = add_secondary_to_primary(
-                                &sender,
-                                name.clone(),
-                                &tcp_addr,
-                                dbs.clone(),
-                                receiver,
+                        if dbs.has_cluster_memeber(&name) {
+                            // The node is still listed: its previous connection ended without a
+                            // leave reaching this node (it died, or it was never tagged as a
+                            // member's connection). It is joining again: the stale entry is
+                            // replaced. Panicking here would leave the node without supervisor
+                            log::warn!(
+                                "[start_replication_creator_thread] {} joins again, replacing its stale entry",
+                                name
                             );
-                            guards.push(guard);
-                        } else {
-                            panic!("Re-adding a secoundary that alrady exists!!!")
+                            dbs.remove_cluster_member(&name);
                         }
+                        // Notify the members in the cluster about the new member
+                        send_cluster_state_to_the_new_member(&sender, &dbs, &name);
+                        let guard = add_secondary_to_primary(
+                            &sender,
+                            name.clone(),
+                            &tcp_addr,
+                            dbs.clone(),
+                            receiver,
+                        );
+                        guards.push(guard);
                     }
 
                     Some("leave") => {
